@@ -166,14 +166,19 @@ def _io_string_classes(lexpr, fp):
     if f is None:
         return None
     out = {}
+    inl = lex.worker_inline(lexpr, f)
     for d in range(256):
-        S = lex.make_sim([lexpr], d)
+        # the trait method may be a thin wrapper around the scanning loop (a private method, or one generic over the
+        # string syntax): it is looked through, with the wrapper's type arguments bound
+        S = sim.Sim([lexpr], hooks={"call": lex.reader_hook(d)}, inline=inl, max_depth=6)
         kinds = set()
         for p in S.run(f):
             names = set()
             for ev in p.events:
                 if ev[0] == "call":
                     names |= set(ev[1])
+                elif ev[0] == "enter":
+                    names.add(ev[1])       # a helper that was looked through
             if any(n.endswith("parse_r6rs_escape") or n.endswith("parse_elisp_escape") for n in names):
                 kinds.add("escape")
             elif "std::vec::Vec::<T, A>::push" in names:
@@ -203,7 +208,7 @@ def sibling(ctx, lexpr):
                         "the stream and slice symbol scanners disagree on %s (stream: %s, slice: %s): the same bytes "
                         "parse differently from a reader and from a slice" % (lex.fmt_bytes(diff), lex.fmt_bytes(a[0]), lex.fmt_bytes(b[0])))
         stop = classes.predicate_class(lexpr, "parse::read::needs_escape")
-        for io_fp, label in (("parse::read::IoRead::<R>::parse_r6rs_str_bytes", "R6RS string"),
+        for io_fp, label in (("<parse::read::IoRead<R> as parse::read::Read<'de>>::parse_r6rs_str", "R6RS string"),
                              ("<parse::read::IoRead<R> as parse::read::Read<'de>>::parse_elisp_str", "Elisp string")):
             m = _io_string_classes(lexpr, io_fp)
             if m is None or stop is None:
